@@ -254,7 +254,16 @@ func (p *Prog) spliceIfs(x *TX, sp *spliceSite) []ifInfo {
 		}
 		if iff, ok := hb.Instrs[len(hb.Instrs)-1].(*ssa.If); ok {
 			t := substTerm(markHelperCounters(hx.Of(iff.Cond, iff)), sp.env)
-			out = append(out, ifInfo{in: iff, atom: atomOfTerm(t), site: sp, t: t})
+			ii := ifInfo{in: iff, atom: atomOfTerm(t), site: sp, t: t}
+			if v, pred, neg, cs, ok := namedCondition(iff); ok {
+				vt := substTerm(markHelperCounters(hx.Of(v, pred.Instrs[len(pred.Instrs)-1])), sp.env)
+				if neg {
+					vt = mk("un", "!", vt)
+				}
+				a := atomOfTerm(vt)
+				ii.alt, ii.altT, ii.constSlot = &a, vt, cs
+			}
+			out = append(out, ii)
 		}
 	}
 	return out
@@ -286,7 +295,9 @@ func enter(from *ssa.BasicBlock, slot int, site *spliceSite, cut map[Edge]bool) 
 	s := from.Succs[slot]
 	if th, ok := threadMap[s]; ok {
 		if ts, ok := th[from]; ok {
-			if cut[Edge{s, ts, site}] {
+			// a constant entry: the branch of s is not a decision on this path (a guard that
+			// names the branch's deciding value does not apply to it)
+			if _, named := namedBranch[s]; !named && cut[Edge{s, ts, site}] {
 				return nil
 			}
 			return []Node{{B: s.Succs[ts], Site: site}}
@@ -294,6 +305,10 @@ func enter(from *ssa.BasicBlock, slot int, site *spliceSite, cut map[Edge]bool) 
 	}
 	return []Node{{B: s, Site: site}}
 }
+
+// namedBranch: blocks whose branch is a named condition with a deciding predecessor
+// (filled by computeThreading).
+var namedBranch = map[*ssa.BasicBlock]bool{}
 
 // succNodes: successors of n in the walked graph with the cut edges deleted.
 func succNodes(n Node, cut map[Edge]bool) []Node {
